@@ -110,7 +110,7 @@ def gen_pose_case(rng, max_pts=5, max_frames=4, max_people=3, edge=0.25, dims_ch
     P = rng.choice([0, 1, 1, 1, 2, max_people])
     dims = [rng.choice([0, 1, 640, 65535, rng.randrange(0, 65536)]) for _ in range(3)]
     fps = b64(rng.choice([30.0, 29.97, 25.0, 0.0, 1e-3, 24, 59.94, 1.5]))
-    case = {"dims": dims, "comps": comps, "fps": fps, "shape": [F, P, T, D], "cshape": [F, P, T], "dtype": rng.choice(["f32", "f32", "f64"]),
+    case = {"dims": dims, "comps": comps, "fps": fps, "shape": [F, P, T, D], "cshape": [F, P, T], "dtype": rng.choice(["f32", "f32", "f64", "f64", ">f4", ">f8"]),
             "edge": "none"}
     if rng.random() < edge:
         e = rng.choice(["dim_neg", "dim_big", "limb_big", "limb_neg", "color_big", "surrogate", "long_name", "fps_inf", "fps_nan", "fps_big",
@@ -223,6 +223,10 @@ def build_pose(case):
     if case.get("dtype") == "f32":
         data = data.astype(np.float32)
         conf = conf.astype(np.float32)
+    elif case.get("dtype") in (">f4", ">f8"):
+        # same values, big-endian storage (a legal ndarray dtype): the writer must still emit little-endian float32
+        data = data.astype(np.dtype(case["dtype"]))
+        conf = conf.astype(np.dtype(case["dtype"]))
     # a masked array is handed over so that construction itself never rejects a shape combination;
     # the mask is irrelevant for writing (the writer emits data.data)
     body = NumPyPoseBody(from_b64(case["fps"]), ma.masked_array(data), conf)
